@@ -57,7 +57,8 @@ impl NotifyState {
 // Encode worker state in usize
 const INIT: usize = 0; // not yet polled or enabled
 const ENABLED: usize = 1; // enabled but not notified
-const NOTIFIED: usize = 2; // notified
+const NOTIFIED: usize = 2; // notified (by `notify_waiters` or a consumed permit), or notification already observed
+const NOTIFIED_ONE: usize = 3; // selected by `notify_one`, but the future has not observed it yet
 
 #[derive(Debug)]
 struct Waiter {
@@ -154,7 +155,7 @@ impl Notify {
             // Must set flag before notifying waiter.
             // The send may fail if the Notified future is dropped between the flag store
             // and the send (the flag is already NOTIFIED, so the future already completed).
-            waiter.flag.store(NOTIFIED, Ordering::SeqCst);
+            waiter.flag.store(NOTIFIED_ONE, Ordering::SeqCst);
             let _ = waiter.tx.send(());
         }
     }
@@ -229,7 +230,9 @@ impl Notified<'_> {
 
     fn poll_inner(&self) -> bool {
         let flag = self.flag.load(Ordering::SeqCst);
-        if flag == NOTIFIED {
+        if flag == NOTIFIED || flag == NOTIFIED_ONE {
+            // The notification has now been observed by the future
+            self.flag.store(NOTIFIED, Ordering::SeqCst);
             return true;
         }
         if flag == INIT {
@@ -263,7 +266,10 @@ impl Future for Notified<'_> {
             let mut this = self.project();
             match this.rx.as_mut().poll(cx) {
                 Poll::Pending => Poll::Pending,
-                Poll::Ready(_) => Poll::Ready(()),
+                Poll::Ready(_) => {
+                    this.flag.store(NOTIFIED, Ordering::SeqCst);
+                    Poll::Ready(())
+                }
             }
         }
     }
@@ -278,10 +284,16 @@ impl PinnedDrop for Notified<'_> {
             self.flag.load(Ordering::SeqCst)
         );
         // We're using std::sync::Atomics here, so no context switching will happen here
-        if self.flag.load(Ordering::SeqCst) != NOTIFIED {
-            // If the waiter hasn't been notified, remove it from the waiter queue
-            let mut state = self.notify.state.lock().unwrap();
-            let _ = state.remove_waiter(self.id);
+        match self.flag.load(Ordering::SeqCst) {
+            NOTIFIED => {}
+            // Selected by `notify_one` but dropped before observing it: like Tokio, pass the
+            // notification on to the next waiter (or store it as a permit).
+            NOTIFIED_ONE => self.notify.notify_one(),
+            _ => {
+                // If the waiter hasn't been notified, remove it from the waiter queue
+                let mut state = self.notify.state.lock().unwrap();
+                let _ = state.remove_waiter(self.id);
+            }
         }
     }
 }
